@@ -252,6 +252,19 @@ def run_op(w, op):
             c = [(o, cnt) for o, cnt in h.items()] or [(1, 1)]
             w.containers.append(c)
             return w.H(c)
+        if which == 6 and a[2] % 8 == 2:
+            return R.from_value(w.P(h))  # a roller over a one-die pool
+        if which == 6 and a[2] % 8 == 4:
+            # a substitution roller whose expansion operator fails part-way into a nested expansion
+            from dyce.r import SubstitutionRoller
+
+            def boom(o, _n=[0]):
+                _n[0] += 1
+                if _n[0] % 3 == 0:
+                    raise ValueError("expansion failed")
+                return r.roll()
+
+            return SubstitutionRoller(boom, r, max_depth=3 + a[1] % 3)
         if which == 6 and a[2] % 2:
             # selectors that are index-like but not plain ints
             return r.select(True, slice(None)) if a[2] % 4 == 1 else R.select_from_sources((_Idx(0), False), r)
